@@ -82,7 +82,9 @@ def main():
     work = "/var/tmp/verif-run/%s-%d" % (prop, os.getpid())
     shutil.rmtree(work, ignore_errors=True)
     os.makedirs(work)
-    rdir = os.path.join(VERIF, "replays", prop)
+    # (VERIF_OUT_DIR: mutation runs keep their evidence and replay files out of /verif)
+    outbase = os.environ.get("VERIF_OUT_DIR", VERIF)
+    rdir = os.path.join(outbase, "replays", prop)
     shutil.rmtree(rdir, ignore_errors=True)
     os.makedirs(rdir, exist_ok=True)
     deadline = int(time.time() + seconds)
@@ -270,8 +272,8 @@ def main():
     }
     if spec["level"] == "other":
         ev["coverage"]["explanation"] = spec.get("explanation", spec["rule"])
-    os.makedirs(os.path.join(VERIF, "evidence"), exist_ok=True)
-    json.dump(ev, open(os.path.join(VERIF, "evidence", prop + ".json"), "w"), indent=1)
+    os.makedirs(os.path.join(outbase, "evidence"), exist_ok=True)
+    json.dump(ev, open(os.path.join(outbase, "evidence", prop + ".json"), "w"), indent=1)
     if trouble and os.environ.get("VERIF_KEEP_WORK"):
         sys.stderr.write("work directory kept: %s\n" % work)
     else:
